@@ -135,6 +135,17 @@ class Backend:
     def new_store(self, x, which):
         return None
 
+    def first_life(self, ds, bids):
+        """every bucket id the harness uses is in its *second life* on this store object: it was created,
+        given an event, and deleted before the harness's own create_bucket — whatever the store remembers per
+        bucket id (row ids, keys, cached handles) must not survive the deletion"""
+        from aw_core.models import Event
+
+        for bid in bids:
+            ds.create_bucket(bid, "first-life", "first-life", "first-life", created=T0, name="first-life", data={"first": "life"})
+            ds[bid].insert(Event(timestamp=DECOY_T, duration=DECOY_D, data={"first": "life"}))
+            ds.delete_bucket(bid)
+
     def make_bystander(self, x, bids):
         from aw_core.models import Event
 
@@ -184,6 +195,7 @@ class MemoryBackend(Backend):
 
         self.make_bystander(x, list(state))
         ds = Datastore(MemoryStorage, testing=True)
+        self.first_life(ds, list(state))
         for bid in state:
             ds.create_bucket(bid, "type-" + bid, "client", "host-" + bid, created=T0, name="name-" + bid, data={"d": bid})
         st = ds.storage_strategy
@@ -223,6 +235,7 @@ class SqliteBackend(Backend):
             self.make_bystander(x, list(state))
             ds = Datastore(SqliteStorage, testing=True, filepath=os.path.join(self.tmp, "s.db"), enable_lazy_commit=lazy)
         st = ds.storage_strategy
+        self.first_life(ds, list(state))
         for bid in state:
             ds.create_bucket(bid, "type-" + bid, "client", "host-" + bid, created=T0, name="name-" + bid, data={"d": bid})
         conn = st.conn
@@ -254,7 +267,7 @@ class SqliteBackend(Backend):
                                  [r.id, bid, r.start, r.start + r.dur, json.dumps({"tag": r.tag})])
                     mx = max(mx, r.id)
             hw = seq if seq is not None else mx
-            if hw:
+            if True:
                 if conn.execute("SELECT count(*) FROM sqlite_sequence WHERE name='events'").fetchone()[0]:
                     conn.execute("UPDATE sqlite_sequence SET seq = ? WHERE name = 'events'", [hw])
                 else:
@@ -436,6 +449,7 @@ class PeeweeBackend(Backend):
             self.tmp = tempfile.mkdtemp(prefix="vstore_")
             ds = Datastore(PeeweeStorage, testing=True, filepath=os.path.join(self.tmp, "p.db"))
         st = ds.storage_strategy
+        self.first_life(ds, list(state))
         for bid in state:
             ds.create_bucket(bid, "type-" + bid, "client", "host-" + bid, created=T0, name="name-" + bid, data={"d": bid})
         conn = st.db.connection()
